@@ -70,6 +70,15 @@ def gen_cases(tier, seed, behs):
         if b % 16 == 0:
             ops.append({"op": "cmd", "who": "master", "code": rng.choice([1, 2, 128])})
     cases.append({"nid": 5, "ops": ops, "src": "hb256"})
+    # the same heartbeat bytes while the master guards the node (the toggle bit means nothing to it)
+    for _ in range(3 if tier == "quick" else 30):
+        ops = [{"op": "guard", "on": True}]
+        for _ in range(40):
+            b = rng.choice([5, 4, 127, 0]) | rng.choice([0, 0x80, 0, 0])
+            ops.append({"op": "hb", "byte": b})
+            if rng.random() < 0.15:
+                ops.append({"op": "guard", "on": rng.random() < 0.7})
+        cases.append({"nid": 5, "ops": ops, "src": "guarded"})
     ops = []
     for who in ("master", "slave"):
         for name in NAMES + BADNAMES + NAMES:
